@@ -332,4 +332,101 @@ example : lmRun (lmBegin 100) [.mint 5, .burn 30, .burn 80, .mint 7] = ⟨100, 1
 example : lmCommitCpis ⟨100, 12, 30⟩ = [.mintTo 12, .burn 30] ∧ lmCommitSupply ⟨100, 12, 30⟩ = 82 := by decide
 example : ((viRunHist 64 ⟨0, ⟨0, (0 : Int)⟩, ⟨0, 0⟩⟩ [([.write (· + 5), .read], .abandon), ([.read], .commit)]).map (·.2)) = some [[5], [0]] := by rfl
 
+/-! ### audit: further non-vacuity instances (hypotheses jointly satisfiable on NON-initial states) -/
+
+/-- `write_does_not_disturb_others` on a concrete pair of distinct cells -/
+example : read (write m0 3 (fun v => v + 5)) 4 = read m0 4 :=
+  write_does_not_disturb_others m0 3 4 _ (by decide)
+
+/-- a non-initial state satisfying `Inv`: cell 3 written (value 5) inside operation 1, not committed -/
+example : Inv (write m0 3 (fun v => v + 5)) := inv_write m0 3 _ (fun _ => by simp [m0])
+example : Inv (commit (write m0 3 (fun v => v + 5))) :=
+  (invariant_preserved 64 (write m0 3 (fun v => v + 5)) m0 0 id (inv_write m0 3 _ (fun _ => by simp [m0]))).2.1
+
+/-- `read_ignores_abandoned` instantiated: the abandoned write of 5 to cell 3 is really in the buffer,
+yet after the next `begin` cell 3 reads the stored 0 -/
+example : ((write m0 3 (fun v => v + 5)).cells 3).val = 5 ∧
+    read ({ write m0 3 (fun v => v + 5) with rev := 2 } : M Int) 3 = 0 :=
+  ⟨by rfl, read_ignores_abandoned 64 (write m0 3 (fun v => v + 5)) _
+    (inv_write m0 3 _ (fun _ => by simp [m0])) (by rfl) 3⟩
+
+/-- `abandoned_writes_invisible` instantiated: begin, write 5, abandon, begin -/
+example : read ({ (runActs ({ m0 with rev := 2 } : M Int) [w5]).1 with rev := 3 } : M Int) 3 = 0 :=
+  abandoned_writes_invisible 64 m0 ({ m0 with rev := 2 }) _ [w5] (fun _ => by simp [m0]) (by rfl) (by rfl) 3
+
+/-- `storage_changes_only_on_commit` instantiated with a real write -/
+example : (runActs ({ m0 with rev := 2 } : M Int) [w5, .read 3]).1.store = m0.store ∧
+    (runActs ({ m0 with rev := 2 } : M Int) [w5, .read 3]).2 = [5] :=
+  ⟨(storage_changes_only_on_commit 64 m0 ({ m0 with rev := 2 }) [w5, .read 3] (by rfl)).2.1, by rfl⟩
+
+/-- `dirty_iff_written` instantiated: cell 3 written ⇒ dirty, cell 4 not -/
+example : dirty (runActs ({ m0 with rev := 2 } : M Int) [w5]).1 3 = true ∧
+    dirty (runActs ({ m0 with rev := 2 } : M Int) [w5]).1 4 = false := by
+  have h := dirty_iff_written 64 m0 ({ m0 with rev := 2 }) [w5] (fun _ => by simp [m0]) (by rfl)
+  exact ⟨by rw [h 3]; rfl, by rw [h 4]; rfl⟩
+
+/-- `commit_applies_exact_writes` hypotheses: a committing operation with a write and a read -/
+example : (runTx 64 m0 ⟨[w5, .read 3], .commit⟩).map (fun r => (abs r.1 3, abs r.1 4, r.1.rev, r.2)) =
+    some (5, 0, 2, [5]) := by rfl
+
+/-- `commit_without_writes_noop` instantiated on a state whose buffer still holds an ABANDONED write:
+a read-only operation that commits leaves storage alone (the stale buffer cell is not copied) -/
+example : (commit (runActs ({ write m0 3 (fun v => v + 5) with rev := 2 } : M Int) [.read 3]).1).store =
+    (write m0 3 (fun v => v + 5)).store :=
+  commit_without_writes_noop 64 (write m0 3 (fun v => v + 5)) _ [.read 3]
+    (inv_write m0 3 _ (fun _ => by simp [m0])) (by rfl)
+    (fun a ha => by simp at ha; exact ⟨3, ha⟩)
+
+/-- `begin_iff_no_overflow`: both sides true (64-bit counter at 1), both sides false (2-bit counter at 3) -/
+example : (begin 64 m0).isSome = true ∧ (begin 2 ({ m0 with rev := 3 } : M Int)).isSome = false := ⟨by rfl, by rfl⟩
+
+/-- `vi_storage_changes_only_on_commit` instantiated on a non-initial single-cell buffer (rev 4, an
+abandoned write of 9 in the buffer cell at revision 4, stored 7 at revision 2) -/
+example : (viWrite ({ rev := 5, cell := ⟨4, 9⟩, store := ⟨2, 7⟩ } : VI Int) (· + 1)).store = ⟨2, 7⟩ ∧
+    viRead (viWrite ({ rev := 5, cell := ⟨4, 9⟩, store := ⟨2, 7⟩ } : VI Int) (· + 1)) = 8 :=
+  ⟨(vi_storage_changes_only_on_commit 64 ({ rev := 4, cell := ⟨4, 9⟩, store := ⟨2, 7⟩ } : VI Int) _ (· + 1)
+      (Nat.le_refl 4) (by rfl)).2.1, by rfl⟩
+
+/-- `vi_history_refines` hypotheses on that non-initial state: abandoned write, then commit of a write -/
+example : ((viRunHist 64 ({ rev := 4, cell := ⟨4, 9⟩, store := ⟨2, 7⟩ } : VI Int)
+    [([.read, .write (· + 5), .read], .abandon), ([.write (· * 2), .read], .commit)]).map
+      (fun r => (r.1.store.val, r.1.rev, r.2))) = some (14, 6, [[7, 12], [14]]) := by rfl
+
+/-- `lm_mint_spec` / `lm_burn_spec`: an accepted and a rejected request each -/
+example : lmMint ⟨100, 5, 30⟩ 7 = some ⟨100, 12, 30⟩ ∧ lmMint ⟨100, 5, 30⟩ (U64 - 104) = none ∧
+    lmBurn ⟨100, 12, 0⟩ 30 = some ⟨100, 12, 30⟩ ∧ lmBurn ⟨100, 12, 30⟩ 80 = none := by decide
+
+/-- `LMInv` on a non-initial state (pending mint 12, pending burn 30), and `lm_requests` / `lm_commit_supply` on it -/
+example : LMInv ⟨100, 12, 30⟩ := by simp [LMInv, U64]
+example : LMInv (lmRun ⟨100, 12, 30⟩ [.burn 80, .burn 70, .mint 1]) ∧
+    (lmRun ⟨100, 12, 30⟩ [.burn 80, .burn 70, .mint 1]) = ⟨100, 13, 100⟩ :=
+  ⟨(lm_requests [.burn 80, .burn 70, .mint 1] ⟨100, 12, 30⟩ (by simp [LMInv, U64])).1, by decide⟩
+example : lmCommitSupply ⟨100, 12, 30⟩ = lmTotalSupply ⟨100, 12, 30⟩ :=
+  (lm_commit_supply ⟨100, 12, 30⟩ (by simp [LMInv, U64])).1
+
+/-- AUDIT (strength): `lm_commit_supply` is stated with `Nat` truncated subtraction on both sides
+(`lmTotalSupply`, `applyCpi … (.burn a)`); this version is subtraction-free: under the invariant the
+`Burn` CPI never exceeds the supply it is applied to (so the token program cannot reject it and the
+saturating `total_supply` never saturates), the `MintTo` keeps the supply within `u64`, and
+`committed supply + burnt = old supply + minted` exactly. -/
+theorem lm_commit_supply_exact (l : LM) (h : LMInv l) :
+    l.toBurn ≤ l.supply + l.toMint ∧ l.supply + l.toMint < U64 ∧
+    lmCommitSupply l + l.toBurn = l.supply + l.toMint ∧
+    lmTotalSupply l + l.toBurn = l.supply + l.toMint := by
+  obtain ⟨h0, h1, _⟩ := lm_commit_supply l h
+  obtain ⟨h2, h3⟩ := h
+  unfold lmTotalSupply at *
+  exact ⟨by omega, h2, by omega, by omega⟩
+
+example : lmCommitSupply ⟨100, 12, 30⟩ + 30 = 100 + 12 :=
+  (lm_commit_supply_exact ⟨100, 12, 30⟩ (by simp [LMInv, U64])).2.2.1
+
+/-- AUDIT (strength): without the invariant the truncated model arithmetic DOES hide an underflow —
+`lm_commit_supply`'s hypothesis `LMInv` is necessary, not decorative -/
+theorem lm_commit_supply_needs_inv_witness :
+    lmCommitSupply ⟨10, 0, 30⟩ = 0 ∧ lmTotalSupply ⟨10, 0, 30⟩ = 0 ∧ ¬ LMInv ⟨10, 0, 30⟩ := by
+  refine ⟨by decide, by decide, ?_⟩
+  intro h; have := h.2; simp at this
+
+
 end Gmx.C21
